@@ -25,6 +25,7 @@ from ai_edge_quantizer import qtyping
 from ai_edge_quantizer import recipe_manager
 
 PROP = 'C11'
+USES_SHIM = False
 LEVEL = 'model_checking'
 FUNCS = [recipe_manager.RecipeManager.add_quantization_config,
          recipe_manager.RecipeManager.get_quantization_configs,
